@@ -148,6 +148,22 @@ func UseOfResult(fl *Flow, p *Path, ci int) ResultUse {
 					}
 					return ResultUse{Kind: "cond", Verdict: "false", At: j}
 				}
+				// `f() == nil` / `f() != nil` as the whole condition
+				if be, isBin := c.(*ast.BinaryExpr); isBin && (be.Op == token.EQL || be.Op == token.NEQ) {
+					var other ast.Expr
+					if ast.Unparen(be.X) == ast.Expr(call) {
+						other = be.Y
+					} else if ast.Unparen(be.Y) == ast.Expr(call) {
+						other = be.X
+					}
+					if other != nil && ValueKey(info, other) == "nil" {
+						isNil := (be.Op == token.EQL) == (b.Taken != neg)
+						if isNil {
+							return ResultUse{Kind: "cond", Verdict: "nil", At: j}
+						}
+						return ResultUse{Kind: "cond", Verdict: "nonnil", At: j}
+					}
+				}
 				return ResultUse{Kind: "nested", At: j}
 			}
 			if b.Block != ev.Block {
